@@ -600,10 +600,12 @@ func checkTierRebuild(c *Ctx, rule string) {
 // checkTierIdentity (C15.R8, C06.R8): the healthy tiers only ever hold - and are only ever purged on behalf of - the
 // object that the member map stores for the address. Tier mutators are the functions that write a tier map with a
 // value/key taken from their parameter; at each of their call sites every element handed over must be
-//   (a) loaded from the member map, or a slice built only by appending such objects,
-//   (b) the elements of a slice parameter that the same function stores into the member map on every path of the
-//       loop that ranges over it, or
-//   (c) a value whose identity with the stored object is tested (`all[x.Addr] == x`) on the edge dominating the call.
+//
+//	(a) loaded from the member map, or a slice built only by appending such objects,
+//	(b) the elements of a slice parameter that the same function stores into the member map on every path of the
+//	    loop that ranges over it, or
+//	(c) a value whose identity with the stored object is tested (`all[x.Addr] == x`) on the edge dominating the call.
+//
 // A stale object in a tier is selectable although the monitor and removal act on the stored one; purging by the
 // address of a stale object removes the stored (healthy) object from the tier for good.
 func checkTierIdentity(c *Ctx, rule string) {
